@@ -51,53 +51,57 @@ theorem PF.foldl {α : Type} {f : World → α → World} (hf : ∀ w a, PF w (f
   | nil => intro w h; exact h
   | cons a l ih => intro w h; exact ih (h.trans (hf w a))
 
+/-- one function layer (never closes a goal by reflexivity, never splits) -/
+syntax "pf_fun" : tactic
+macro_rules | `(tactic| pf_fun) => `(tactic| (guard_world_lit; with_reducible apply PF.setEv))
+macro_rules | `(tactic| pf_fun) => `(tactic| (guard_world_lit; with_reducible apply PF.setGuards))
+macro_rules | `(tactic| pf_fun) => `(tactic| (guard_world_lit; with_reducible apply PF.setGvars))
+macro_rules | `(tactic| pf_fun) => `(tactic| (guard_world_lit; with_reducible apply PF.setFlags))
+macro_rules | `(tactic| pf_fun) => `(tactic| (guard_world_lit; with_reducible apply PF.setPqs))
+macro_rules | `(tactic| pf_fun) => `(tactic| (guard_world_lit; with_reducible apply PF.setOqs))
+macro_rules | `(tactic| pf_fun) => `(tactic| (guard_world_lit; with_reducible apply PF.setBufs))
+macro_rules | `(tactic| pf_fun) => `(tactic| (guard_world_lit; with_reducible apply PF.setPools))
+macro_rules | `(tactic| pf_fun) => `(tactic| (guard_world_lit; with_reducible apply PF.setRes))
+macro_rules | `(tactic| pf_fun) => `(tactic| with_reducible apply PF.evCancel_fst)
+macro_rules | `(tactic| pf_fun) => `(tactic| with_reducible apply PF.sched_fst)
+macro_rules | `(tactic| pf_fun) => `(tactic| with_reducible apply PF.setGuardQ)
+macro_rules | `(tactic| pf_fun) => `(tactic| (with_reducible refine PF.modProc_ctl ?_ _ _ (fun _ => ⟨rfl, rfl, rfl, rfl⟩)))
+macro_rules | `(tactic| pf_fun) => `(tactic| with_reducible apply PF.emit)
+macro_rules | `(tactic| pf_fun) => `(tactic| with_reducible apply PF.fail)
+
 syntax "pf_step" : tactic
 macro_rules | `(tactic| pf_step) => `(tactic| dsimp only)
-macro_rules | `(tactic| pf_step) => `(tactic| (guard_world_lit; with_reducible apply PF.setEv))
-macro_rules | `(tactic| pf_step) => `(tactic| (guard_world_lit; with_reducible apply PF.setGuards))
-macro_rules | `(tactic| pf_step) => `(tactic| (guard_world_lit; with_reducible apply PF.setGvars))
-macro_rules | `(tactic| pf_step) => `(tactic| (guard_world_lit; with_reducible apply PF.setFlags))
-macro_rules | `(tactic| pf_step) => `(tactic| (guard_world_lit; with_reducible apply PF.setPqs))
-macro_rules | `(tactic| pf_step) => `(tactic| (guard_world_lit; with_reducible apply PF.setOqs))
-macro_rules | `(tactic| pf_step) => `(tactic| (guard_world_lit; with_reducible apply PF.setBufs))
-macro_rules | `(tactic| pf_step) => `(tactic| (guard_world_lit; with_reducible apply PF.setPools))
-macro_rules | `(tactic| pf_step) => `(tactic| (guard_world_lit; with_reducible apply PF.setRes))
 macro_rules | `(tactic| pf_step) => `(tactic| split)
-macro_rules | `(tactic| pf_step) => `(tactic| with_reducible apply PF.evCancel_fst)
-macro_rules | `(tactic| pf_step) => `(tactic| with_reducible apply PF.sched_fst)
-macro_rules | `(tactic| pf_step) => `(tactic| with_reducible apply PF.setGuardQ)
-macro_rules | `(tactic| pf_step) => `(tactic| (with_reducible refine PF.modProc_ctl ?_ _ _ (fun _ => ⟨rfl, rfl, rfl, rfl⟩)))
-macro_rules | `(tactic| pf_step) => `(tactic| with_reducible apply PF.emit)
-macro_rules | `(tactic| pf_step) => `(tactic| with_reducible apply PF.fail)
+macro_rules | `(tactic| pf_step) => `(tactic| pf_fun)
 macro_rules | `(tactic| pf_step) => `(tactic| with_reducible exact PF.refl _)
 macro_rules | `(tactic| pf_step) => `(tactic| with_reducible assumption)
 macro "pf" : tactic => `(tactic| repeat' pf_step)
 
 theorem PF.cancelAllFor {w0 w : World} (h : PF w0 w) (p : Pid) : PF w0 (cancelAllFor w p) := by
   unfold Sim.cancelAllFor; exact PF.foldl (fun w q => by pf) _ h
-macro_rules | `(tactic| pf_step) => `(tactic| with_reducible apply PF.cancelAllFor)
+macro_rules | `(tactic| pf_fun) => `(tactic| with_reducible apply PF.cancelAllFor)
 theorem PF.cancelKindFor_fst {w0 w : World} (h : PF w0 w) (p : Pid) (act : Nat) (sig : Option Int) :
     PF w0 (cancelKindFor w p act sig).1 := by
   unfold Sim.cancelKindFor; exact PF.foldl (fun w q => by pf) _ h
-macro_rules | `(tactic| pf_step) => `(tactic| with_reducible apply PF.cancelKindFor_fst)
+macro_rules | `(tactic| pf_fun) => `(tactic| with_reducible apply PF.cancelKindFor_fst)
 theorem PF.wakeEventWaiters {w0 w : World} (h : PF w0 w) (ps : List Pid) (sig : Int) : PF w0 (wakeEventWaiters w ps sig) := by
   unfold Sim.wakeEventWaiters; exact PF.foldl (fun w q => by pf) _ h
-macro_rules | `(tactic| pf_step) => `(tactic| with_reducible apply PF.wakeEventWaiters)
+macro_rules | `(tactic| pf_fun) => `(tactic| with_reducible apply PF.wakeEventWaiters)
 
 theorem PF.recordRes {w0 w : World} (h : PF w0 w) (r : Nat) : PF w0 (recordRes w r) := by unfold Sim.recordRes; pf
 theorem PF.recordPool {w0 w : World} (h : PF w0 w) (r : Nat) : PF w0 (recordPool w r) := by unfold Sim.recordPool; pf
 theorem PF.recordBuf {w0 w : World} (h : PF w0 w) (r : Nat) : PF w0 (recordBuf w r) := by unfold Sim.recordBuf; pf
 theorem PF.recordOQ {w0 w : World} (h : PF w0 w) (r : Nat) : PF w0 (recordOQ w r) := by unfold Sim.recordOQ; pf
 theorem PF.recordPQ {w0 w : World} (h : PF w0 w) (r : Nat) : PF w0 (recordPQ w r) := by unfold Sim.recordPQ; pf
-macro_rules | `(tactic| pf_step) => `(tactic| with_reducible apply PF.recordRes)
-macro_rules | `(tactic| pf_step) => `(tactic| with_reducible apply PF.recordPool)
-macro_rules | `(tactic| pf_step) => `(tactic| with_reducible apply PF.recordBuf)
-macro_rules | `(tactic| pf_step) => `(tactic| with_reducible apply PF.recordOQ)
-macro_rules | `(tactic| pf_step) => `(tactic| with_reducible apply PF.recordPQ)
+macro_rules | `(tactic| pf_fun) => `(tactic| with_reducible apply PF.recordRes)
+macro_rules | `(tactic| pf_fun) => `(tactic| with_reducible apply PF.recordPool)
+macro_rules | `(tactic| pf_fun) => `(tactic| with_reducible apply PF.recordBuf)
+macro_rules | `(tactic| pf_fun) => `(tactic| with_reducible apply PF.recordOQ)
+macro_rules | `(tactic| pf_fun) => `(tactic| with_reducible apply PF.recordPQ)
 
 theorem PF.guardRemove_fst {w0 w : World} (h : PF w0 w) (g : Nat) (p : Pid) : PF w0 (guardRemove w g p).1 := by
   unfold Sim.guardRemove; pf
-macro_rules | `(tactic| pf_step) => `(tactic| with_reducible apply PF.guardRemove_fst)
+macro_rules | `(tactic| pf_fun) => `(tactic| with_reducible apply PF.guardRemove_fst)
 
 theorem PF.frontStep {w0 w : World} (h : PF w0 w) (g : Nat) (gd : Guard) : PF w0 (frontStep w g gd) := by
   unfold S3.frontStep; pf
@@ -114,37 +118,37 @@ theorem PF.guardSignal' : ∀ (fuel : Nat) (w : World) (g : Nat), PF w (guardSig
     · exact PF.foldl (fun w o => ih w o) _ ((PF.refl w).frontStep g _)
 
 theorem PF.signal {w0 w : World} (h : PF w0 w) (g : Nat) : PF w0 (signal w g) := h.trans (PF.guardSignal' 8 w g)
-macro_rules | `(tactic| pf_step) => `(tactic| with_reducible apply PF.signal)
+macro_rules | `(tactic| pf_fun) => `(tactic| with_reducible apply PF.signal)
 
 theorem PF.guardWithdraw {w0 w : World} (h : PF w0 w) (g : Nat) (p : Pid) : PF w0 (guardWithdraw w g p) := by
   simp only [Sim.guardWithdraw]; pf
-macro_rules | `(tactic| pf_step) => `(tactic| with_reducible apply PF.guardWithdraw)
+macro_rules | `(tactic| pf_fun) => `(tactic| with_reducible apply PF.guardWithdraw)
 
 theorem PF.removeHeld_fst {w0 w : World} (h : PF w0 w) (p : Pid) (x : HoldRef) : PF w0 (removeHeld w p x).1 := by
   simp only [Sim.removeHeld]; pf
-macro_rules | `(tactic| pf_step) => `(tactic| with_reducible apply PF.removeHeld_fst)
+macro_rules | `(tactic| pf_fun) => `(tactic| with_reducible apply PF.removeHeld_fst)
 
 theorem PF.poolDropHolder {w0 w : World} (h : PF w0 w) (pl : Nat) (p : Pid) : PF w0 (poolDropHolder w pl p) := by
   unfold Sim.poolDropHolder; pf
-macro_rules | `(tactic| pf_step) => `(tactic| with_reducible apply PF.poolDropHolder)
+macro_rules | `(tactic| pf_fun) => `(tactic| with_reducible apply PF.poolDropHolder)
 
 theorem PF.dropResources {w0 w : World} (h : PF w0 w) (p : Pid) : PF w0 (dropResources w p) := by
   unfold Sim.dropResources
   exact PF.foldl (fun w q => by pf) _ (by pf)
-macro_rules | `(tactic| pf_step) => `(tactic| with_reducible apply PF.dropResources)
+macro_rules | `(tactic| pf_fun) => `(tactic| with_reducible apply PF.dropResources)
 
 theorem PF.grab {w0 w : World} (h : PF w0 w) (r : Nat) (p : Pid) : PF w0 (grab w r p) := by unfold Sim.grab; pf
-macro_rules | `(tactic| pf_step) => `(tactic| with_reducible apply PF.grab)
+macro_rules | `(tactic| pf_fun) => `(tactic| with_reducible apply PF.grab)
 theorem PF.poolUpdateRecord {w0 w : World} (h : PF w0 w) (pl : Nat) (p : Pid) (a : Nat) : PF w0 (poolUpdateRecord w pl p a) := by
   unfold Sim.poolUpdateRecord; pf
-macro_rules | `(tactic| pf_step) => `(tactic| with_reducible apply PF.poolUpdateRecord)
+macro_rules | `(tactic| pf_fun) => `(tactic| with_reducible apply PF.poolUpdateRecord)
 theorem PF.setPoolInUse {w0 w : World} (h : PF w0 w) (pl v : Nat) : PF w0 (setPoolInUse w pl v) := by unfold Sim.setPoolInUse; pf
-macro_rules | `(tactic| pf_step) => `(tactic| with_reducible apply PF.setPoolInUse)
+macro_rules | `(tactic| pf_fun) => `(tactic| with_reducible apply PF.setPoolInUse)
 theorem PF.setHeldAmount {w0 w : World} (h : PF w0 w) (pl : Nat) (p : Pid) (a : Nat) : PF w0 (setHeldAmount w pl p a) := by
   unfold Sim.setHeldAmount; pf
-macro_rules | `(tactic| pf_step) => `(tactic| with_reducible apply PF.setHeldAmount)
+macro_rules | `(tactic| pf_fun) => `(tactic| with_reducible apply PF.setHeldAmount)
 theorem PF.setVar {w0 w : World} (h : PF w0 w) (p : Pid) (v x : Nat) : PF w0 (setVar w p v x) := by unfold Sim.setVar; pf
-macro_rules | `(tactic| pf_step) => `(tactic| with_reducible apply PF.setVar)
+macro_rules | `(tactic| pf_fun) => `(tactic| with_reducible apply PF.setVar)
 
 theorem PF.poolMug' : ∀ (fuel : Nat) (w : World) (p : Pid) (pl rem : Nat), PF w (poolMug fuel w p pl rem).1 := by
   intro fuel
@@ -156,11 +160,11 @@ theorem PF.poolMug' : ∀ (fuel : Nat) (w : World) (p : Pid) (pl rem : Nat), PF 
     repeat' first | (with_reducible refine PF.trans ?_ (ih _ _ _ _)) | pf_step
 theorem PF.poolMug_fst {w0 w : World} (h : PF w0 w) (fuel : Nat) (p : Pid) (pl rem : Nat) : PF w0 (poolMug fuel w p pl rem).1 :=
   h.trans (PF.poolMug' fuel w p pl rem)
-macro_rules | `(tactic| pf_step) => `(tactic| with_reducible apply PF.poolMug_fst)
+macro_rules | `(tactic| pf_fun) => `(tactic| with_reducible apply PF.poolMug_fst)
 
 theorem PF.poolRollback {w0 w : World} (h : PF w0 w) (p : Pid) (pl ini : Nat) : PF w0 (poolRollback w p pl ini) := by
   simp only [Sim.poolRollback]; pf
-macro_rules | `(tactic| pf_step) => `(tactic| with_reducible apply PF.poolRollback)
+macro_rules | `(tactic| pf_fun) => `(tactic| with_reducible apply PF.poolRollback)
 
 theorem PF.condSignal_fst {w0 w : World} (h : PF w0 w) (g : Nat) : PF w0 (condSignal w g).1 := by
   simp only [Sim.condSignal]
@@ -170,11 +174,11 @@ theorem PF.condSignal_fst {w0 w : World} (h : PF w0 w) (g : Nat) : PF w0 (condSi
     · exact h
     · refine PF.foldl (fun w q => by pf) _ ?_
       exact PF.foldl (fun w q => by pf) _ h
-macro_rules | `(tactic| pf_step) => `(tactic| with_reducible apply PF.condSignal_fst)
+macro_rules | `(tactic| pf_fun) => `(tactic| with_reducible apply PF.condSignal_fst)
 
 theorem PF.setRecording {w0 w : World} (h : PF w0 w) (kind idx : Nat) (on : Bool) : PF w0 (setRecording w kind idx on) := by
   simp only [Sim.setRecording]; pf
-macro_rules | `(tactic| pf_step) => `(tactic| with_reducible apply PF.setRecording)
+macro_rules | `(tactic| pf_fun) => `(tactic| with_reducible apply PF.setRecording)
 
 theorem PF.reprioGuard {w0 w : World} (h : PF w0 w) (q : Pid) (v : Int) (g : Nat) : PF w0 (reprioGuard w q v g) := by
   unfold S3.reprioGuard; pf
